@@ -178,6 +178,7 @@ class Engine(Interp):
 
     def spawn(self, g, node):
         p = ProcV(g, z3.Bool(fresh_name('triggered')))
+        self.st.assume(z3.Not(p.triggered))     # S4: a process that has not run yet has not returned
         self.st.spawns.append((g, p, node))
         hook = getattr(self, 'on_spawn', None)
         if hook:
@@ -421,6 +422,18 @@ class Engine(Interp):
             self.havoc_object(o, cls)
         return o
 
+    def dict_of_lists_facts(self, d):
+        """theory of multisets for every value of a dict of lists (true of real Python lists)"""
+        o = z3.Int(fresh_name('dlo'))
+        m = z3.Int(fresh_name('dlm'))
+        self.st.assume(z3.ForAll([o], z3.And(z3.Select(d.vn, o) >= 0,
+                                             z3.Implies(z3.Select(d.vn, o) == 0, z3.Select(d.vcnt, o) == EMPTY_CNT)),
+                                 patterns=[z3.Select(d.vn, o)]))
+        self.st.assume(z3.ForAll([o, m], z3.And(z3.Select(z3.Select(d.vcnt, o), m) >= 0,
+                                                z3.Implies(z3.Select(z3.Select(d.vcnt, o), m) > 0,
+                                                           z3.Select(d.vn, o) >= z3.Select(z3.Select(d.vcnt, o), m))),
+                                 patterns=[z3.Select(z3.Select(d.vcnt, o), m)]))
+
     def coerce_types(self, v, path, seen=None):
         """after a real __init__: give the declared container types to still-untyped empty dict / list literals"""
         seen = seen if seen is not None else set()
@@ -502,6 +515,7 @@ class Engine(Interp):
             if x.vkind == 'list' or (ty or '').endswith('->list'):
                 x.vcnt = z3.Const(fresh_name(path + '.vcnt'), z3.ArraySort(I, IntArr))
                 x.vn = z3.Const(fresh_name(path + '.vn'), IntArr)
+                self.dict_of_lists_facts(x)
             elif x.vkind == 'num':
                 x.vals = z3.Const(fresh_name(path + '.vals'), z3.ArraySort(I, R))
             elif x.vkind == 'bool':
@@ -621,8 +635,17 @@ class Engine(Interp):
         if c.ensures:
             for nm, cl in c.ensures(ctx2):
                 self.st.assume(hyp_of(cl))
+        if c.invariants and not c.assumed:
+            # the callee preserves the class invariants of its world and the heap invariants
+            from .driver import invariant_clauses
+            for nm, cl in invariant_clauses(self.spec, self, new, {'self': vals.get('self')}):
+                self.st.assume(hyp_of(cl))
         if c.assumed:
             self.note_assumed(c.qual)
+        if c.effect:
+            r2 = c.effect(self, vals, result)
+            if r2 is not None:
+                result = r2
         return result
 
     def in_try_for(self, exc):
@@ -676,6 +699,7 @@ class Engine(Interp):
             if loc.vkind == 'list':
                 loc.vcnt = z3.Const(fresh_name(base + '.vcnt'), z3.ArraySort(I, IntArr))
                 loc.vn = z3.Const(fresh_name(base + '.vn'), IntArr)
+                self.dict_of_lists_facts(loc)
             else:
                 loc.vals = z3.Const(fresh_name(base + '.vals'), loc.vals.sort())
             return
@@ -732,6 +756,18 @@ class Engine(Interp):
         names = dict(self.st.locals)
         new = SV(self, self.st, names)
         c = Ctx(self, old, new, None, extra)
+        if not getattr(spec, '_wrapped', False):
+            # every loop invariant includes the heap invariants (loops may write the entity heap)
+            inner = spec.inv
+            hinv = getattr(self.spec, 'heap_invariants', [])
+
+            def inv(cc, inner=inner, hinv=hinv):
+                out = list(inner(cc))
+                for hi in hinv:
+                    out += [(f"heap.{nm}", cl) for nm, cl in hi(cc.n)]
+                return out
+            spec.inv = inv
+            spec._wrapped = True
         return c
 
     def probe_value(self, label, v):
@@ -873,6 +909,7 @@ class Engine(Interp):
                 self.assign(tgt, ev_)
                 self.probe_value(ast.unparse(tgt), ev_)
             broke = False
+            n_spawns0 = len(self.st.spawns)
             try:
                 self.exec_block(s.body)
             except ContinueSig:
@@ -890,6 +927,8 @@ class Engine(Interp):
                 extra2 = {'visited': vis2, 'iter': it, 'pre': pre_loop}
             self.loop_frame(spec, name, iter_start, s)
             extra2['last_new'] = self.st.ghost.get('_last_new')
+            extra2['spawns'] = list(self.st.spawns[n_spawns0:])
+            extra2['iter_start'] = iter_start
             c2 = self.loop_ctx(spec, pre_loop, extra2)
             for nm, cl in spec.inv(c2):
                 self.oblige(f"loop-step:{name}:{nm}", 'loop-step', cl, s)
